@@ -45,6 +45,41 @@ class FLPOracle:
         return T.s_neg(tot)
 
 
+def _close(a, b, tol=1e-4):
+    a, b = float(a), float(b)
+    return a == b or abs(a - b) <= tol * (1 + abs(b))
+
+
+def flp_bookkeeping_concrete(extra, mask, orc, st, b, n):
+    bad = []
+    if not any(st["chosen"]):
+        return bad
+    for j in range(n):
+        ref = orc.nearest(st, j)
+        if not _close(extra["distances"][b][j], ref):
+            bad.append(f"distances[{j}]={extra['distances'][b][j]} but the nearest chosen facility is at {float(ref)}")
+    if [bool(x) for x in mask[b]] != [not c for c in st["chosen"]]:
+        bad.append("action mask != not yet chosen")
+    return bad
+
+
+def mcp_bookkeeping_concrete(extra, mask, orc, st, b, n):
+    bad = []
+    for j, w in enumerate(orc.row["weights"]):
+        ref = 0.0 if orc.covered(st, j + 1) else w
+        if not _close(extra["weights"][b][j], ref):
+            bad.append(f"weights[{j}]={extra['weights'][b][j]} but item {j + 1} should show {float(ref)}")
+    if "membership" in extra:
+        for s_ in range(n):
+            for p_, idv in enumerate(orc.row["members"][s_]):
+                ref = 0 if st["chosen"][s_] else idv
+                if not _close(extra["membership"][b][s_][p_], ref):
+                    bad.append(f"membership[{s_},{p_}]={extra['membership'][b][s_][p_]} expected {ref}")
+    if [bool(x) for x in mask[b]] != [not c for c in st["chosen"]]:
+        bad.append("action mask != not yet chosen")
+    return bad
+
+
 class FLPSpec(Spec):
     name, module, cls = "flp", "rl4co.envs.graph.flp.env", "FLPEnv"
     checker = False
@@ -79,6 +114,8 @@ class FLPSpec(Spec):
 
     def oracle(self, row, n, variant):
         return FLPOracle(row, n)
+
+    bookkeeping_concrete = staticmethod(flp_bookkeeping_concrete)
 
     def bookkeeping(self, td, orc, st, b, n):
         """what the policy is shown (`distances`) must follow from the selection made so far"""
@@ -119,7 +156,7 @@ class MCPSpec(Spec):
     name, module, cls = "mcp", "rl4co.envs.graph.mcp.env", "MCPEnv"
     checker = False
     ITEMS, SIZE = 3, 2
-    record = ("weights",)
+    record = ("weights", "membership")
 
     def env_kwargs(self, n, variant):
         return {"generator_params": {"num_items": self.ITEMS, "num_sets": n, "n_sets_to_choose": max(1, n // 2), "min_size": 1, "max_size": self.SIZE}, "check_solution": False}
@@ -153,6 +190,8 @@ class MCPSpec(Spec):
 
     def oracle(self, row, n, variant):
         return MCPOracle(row, n)
+
+    bookkeeping_concrete = staticmethod(mcp_bookkeeping_concrete)
 
     def bookkeeping(self, td, orc, st, b, n):
         out = []
